@@ -207,9 +207,10 @@ Value Endgame<kKPK>::strongSideScore(const Position& position) const
 
     bitbase::normalize(strongSide, side, strongKingSq, strongPawn, weakKingSq);
     if (!bitbase::check(side, strongKingSq, strongPawn, weakKingSq))
-        return VALUE_POSITIVE_DRAW + Value(rank(normalize(strongPawn, strongSide)));
+        return VALUE_POSITIVE_DRAW + Value(rank(strongPawn));
 
-    return VALUE_KNOWN_WIN + Value(rank(normalize(strongPawn, strongSide)));
+    // strongPawn was already normalised to White's point of view by bitbase::normalize
+    return VALUE_KNOWN_WIN + Value(rank(strongPawn));
 }
 
 template <>
